@@ -12,3 +12,4 @@ def run(ck):
     region.r7_5_independent_clamps(ck, P)
     region.r7_6_previous_band_updates(ck, P)
     region.r_equality_sides(ck, P, 'C07-R7')
+    region.r7_8_range_test_siblings(ck, P)
